@@ -176,6 +176,12 @@ def run(ctx: Ctx) -> None:
     rc, _, hints, pk = create_content_evaluation_result_based_evaluators(evalenv.FMT, evalenv.FV)
     evalenv.configure_cer_based(extra=[rc, ev, hints, pk])
     rng = ctx.rng
+    from .. import schedules as S
+    probe = S.probe_runtime(rng)
+    ctx.coverage["runtime_assumptions_probed"] = probe
+    if not (probe["order_ok"] == probe["context_ok"] == probe["gathers"]):
+        from ..common import ToolFailure
+        raise ToolFailure(f"this interpreter's asyncio does not behave as the model of C15 assumes: {probe}")
     traces = []
     for a in range(ctx.pick(25, 200)):
         spec = build(ctx, rng.randint(2, ctx.pick(14, 30)))
